@@ -87,4 +87,37 @@ def headerToks (n : Nat) : List Tok :=
 def programToks (n : Nat) (ops : List POp) : List Tok :=
   headerToks n ++ (ops.map opToks).flatten
 
+/-! ## programs with measurements
+
+`MeasurementPlaceholder.get_qasm_gate_def` declares the classical registers (`encode` keeps each
+`creg` line once), `get_qasm` writes one `measure q[k] -> c[i];` per measured qubit. -/
+
+/-- a line of the writer's program -/
+inductive PLine where
+  | op (o : POp)
+  | meas (q : Nat) (c : String) (i : Nat)
+  deriving Repr, DecidableEq, Inhabited
+
+def printLine : PLine → String
+  | .op o => printOp o
+  | .meas q c i => "measure q[" ++ toString q ++ "] -> " ++ c ++ "[" ++ toString i ++ "];\n"
+
+def printCreg (c : String × Nat) : String := "creg " ++ c.1 ++ "[" ++ toString c.2 ++ "];\n"
+
+/-- `encode` of a circuit without CircuitGates: header, classical registers, lines -/
+def printProgramM (n : Nat) (cregs : List (String × Nat)) (ls : List PLine) : String :=
+  header n ++ String.join (cregs.map printCreg) ++ String.join (ls.map printLine)
+
+def lineToks : PLine → List Tok
+  | .op o => opToks o
+  | .meas q c i =>
+    .kw "measure" :: (locToks q ++
+      [.sym "->", .id c, .sym "[", .num (toString i), .sym "]", .sym ";"])
+
+def cregToks (c : String × Nat) : List Tok :=
+  [.kw "creg", .id c.1, .sym "[", .num (toString c.2), .sym "]", .sym ";"]
+
+def programToksM (n : Nat) (cregs : List (String × Nat)) (ls : List PLine) : List Tok :=
+  headerToks n ++ ((cregs.map cregToks).flatten ++ (ls.map lineToks).flatten)
+
 end BqVerif.Qasm
